@@ -108,8 +108,14 @@ for rnd in range(rounds):
     cache = os.path.join(g.root, "gcache%d" % rnd)
     jobs = [("a1", [], d1), ("a2", [], d1), ("a3", ["-tiny"], d1), ("b1", [], d2)]
     res = {}
-    ths = [threading.Thread(target=lambda t=t, f=f, d=d: res.__setitem__(t, build_conc(t + str(rnd), f, cache, d))) for t, f, d in jobs]
+    def job(t, f, d):
+        try: res[t] = build_conc(t + str(rnd), f, cache, d)
+        except Exception as e: res[t] = e
+    ths = [threading.Thread(target=job, args=j) for j in jobs]
     [t.start() for t in ths]; [t.join() for t in ths]
+    if any(isinstance(r, Exception) for r in res.values()):
+        log("harness error in the supplementary concurrent builds (not a verdict):", [repr(r) for r in res.values() if isinstance(r, Exception)][:1])
+        continue
     # isolated references on a fresh linker cache each
     for t, f, d in jobs:
         real_runs += 1
